@@ -267,6 +267,10 @@ func init() {
 				return nil
 			}
 			d := ex.memo(func() int64 {
+				if ex.decide(nc) == 0 {
+					ex.stats.Filtered++
+					return 0
+				}
 				r := ex.check(nc)
 				if r == Unsat {
 					return 0
